@@ -1,10 +1,22 @@
 import StepupModel.Proto
-/-! Driver requests of C04 (`c04 <op> ...`). -/
-open StepupModel StepupModel.Proto
+import StepupModel.P.Skip
+/-! Driver requests of C04 (`c04 <op> ...`): the guard of `Executor._run_hash_job`.
+
+* `c04 hashjob <old> <new> <cause>` → `1` when the result is applied to the workflow, else `0`
+  (hash tokens are opaque: equality of tokens is equality of `FileHash` objects). -/
+open StepupModel StepupModel.Proto StepupModel.P.Skip
 
 namespace StepupModel.Drv.C04
 
+def parseCause : String → Option Cause
+  | "EXTERNAL" => some .external | "SUCCEEDED" => some .succeeded | "FAILED" => some .failed
+  | "CONFIRMED" => some .confirmed
+  | _ => none
+
 def handle : List String → Option String
+  | ["hashjob", old, new, cause] => do
+    let c ← parseCause cause
+    pure (boolStr (hashJobApplies old new c))
   | _ => none
 
 end StepupModel.Drv.C04
